@@ -4,7 +4,7 @@ from verif.core import Infra
 META = dict(
     technique="TLC exhaustive model check of ServerLimits.tla (per-IP register/reject, worker admission, tryAcquireConcurrency with its transient over-count, s.open, hijack hand-over; Serve and ServeConn entry points) + TLC trace validation of hook-recorded executions of the real Server (B2) + direct checks of handler peaks and getters at quiescence",
     design_ref="DESIGN.md §4 C12",
-    text="The design (one TLA+ action per critical section / atomic operation of acceptConn, wrapPerIPConn, Serve, ServeConn, tryAcquireConcurrency, serveConnCounted/serveConnCleanup, workerFunc, perIPConn.Close, hijackConnHandler) is model-checked exhaustively for Concurrency 2, MaxConnsPerIP in {1,2}, 2 addresses (+ one non-IP peer), 3 connections (quick) / 4 connections (thorough), for the Serve and the ServeConn entry point: #served <= Concurrency, live connections per address <= MaxConnsPerIP and equal to the counter, s.open / s.concurrency / worker occupancy equal their holders, rejected connections got 429 / 503 and were closed, everything zero at quiescence (GetOpenConnectionsCount with its -1 listening correction). Real executions under seeded random client scripts (stall, slow handlers, pipelining, garbage, abandon, Connection: close, hijack with and without KeepHijackedConns and with HijackSetNoResponse), plain and over TLS (perIPTLSConn; peers that vanish without close_notify), with connection faults injected at chosen points (Close reporting an error, Read / Write failing from the n-th call, a hijack whose response cannot be written), followed after quiescence by one more connection per address that must be admitted again, and rounds of ServeConn calls released together by a spin barrier whose handlers block until the round is judged (admitted > Concurrency is decided exactly per round), are recorded at linearization points and must be behaviours of the same spec with all invariants evaluated in every reconstructed state; peaks of concurrently running handlers and the public getters at quiescence are checked directly.",
+    text="The design (one TLA+ action per critical section / atomic operation of acceptConn, wrapPerIPConn, Serve, ServeConn, tryAcquireConcurrency, serveConnCounted/serveConnCleanup, workerFunc, perIPConn.Close, hijackConnHandler) is model-checked exhaustively for Concurrency 2, MaxConnsPerIP in {1,2}, 2 addresses (+ one non-IP peer), 3 connections (quick) / 4 connections (thorough), for the Serve and the ServeConn entry point: #served <= Concurrency, live connections per address <= MaxConnsPerIP and equal to the counter, s.open / s.concurrency / worker occupancy equal their holders, rejected connections got 429 / 503 and were closed, everything zero at quiescence (GetOpenConnectionsCount with its -1 listening correction). Real executions under seeded random client scripts (stall, slow handlers, pipelining, garbage, abandon, Connection: close, hijack with and without KeepHijackedConns and with HijackSetNoResponse), plain and over TLS (perIPTLSConn; peers that vanish without close_notify), with connection faults injected at chosen points (Close reporting an error, Read / Write failing from the n-th call, a hijack whose response cannot be written), followed after quiescence by one more connection per address that must be admitted again, and rounds of ServeConn calls released together by a spin barrier whose handlers block until the round is judged (admitted > Concurrency is decided exactly per round), and cycles of serve / idle beyond a short MaxIdleWorkerDuration until every worker is retired / burst of Concurrency+2 connections with blocking handlers (more than Concurrency in flight is decided exactly), are recorded at linearization points and must be behaviours of the same spec with all invariants evaluated in every reconstructed state; peaks of concurrently running handlers and the public getters at quiescence are checked directly.",
     note="Trusted: hook placement (per-IP events under cc.lock, worker admission/release under wp.lock, atomic counters logged after increment / before decrement), goroutine-to-connection attribution in the harness, TLC, Go runtime. A logged tryAcquireConcurrency failure is accepted without its guard (log order of atomics is not exact). Under TLS the status of a rejection cannot be read off the wire in the harness (the trace takes it as unknown; the client checks what it decrypts). GetOpenConnectionsCount is read while exactly one Serve is listening; on ServeConn-only servers the balance s.open = 0 is asserted instead (the getter returns -1 there by construction). Real-code schedules are sampled, not exhaustive.",
 )
 
@@ -34,5 +34,5 @@ def run(ctx):
                 "random client script each; all are non-trivial (concurrent arrivals against limits <= 3)")
     ctx.assumptions = ["model constants: Concurrency 2, MaxConnsPerIP 1/2, 2 addresses + a non-IP peer, %s connections" % ("3" if ctx.quick else "4"),
                        "one Serve listener or ServeConn only per Server, as the Server.Concurrency field comment requires ('Concurrency only works if you either call Serve once, or only ServeConn multiple times'); TLC confirms on the design that mixing entry points exceeds the bound",
-                       "no idle-worker retirement during an execution (MaxIdleWorkerDuration = 1h; C13 covers it)",
+                       "no idle-worker retirement during a trace-validated execution (MaxIdleWorkerDuration = 1h; C13 covers the pool); retirement followed by a burst is a separate directly judged phase",
                        "real-code schedules are sampled (seeded scripts + jitter at hook points), not exhaustive"]
